@@ -735,7 +735,7 @@ fn check_list_interrupt(t: &mut Tape, ctx: &Ctx) -> Outcome {
 pub fn property() -> Property {
     Property {
         id: "C13",
-        rule: "Cases: proptest-generated programs of the fragment with column-independent output (no TAB/POS/comma zones, no TRON), INPUT allowed. (interrupt_points) the run is single-stepped with execute(1); for EVERY k below the run length (sampled when longer than 120/400) \
+        rule: "Cases: (list_interrupt) a program that lists parts of itself inside a FOR loop and a subroutine, interrupt() after the k-th event, CONT: the transcript minus the break message equals the uninterrupted one. (interrupt_points also demands the forced line break: with the cursor in mid-line the ?BREAK message starts on a fresh line; the lines typed between break and CONT include LIST n-m and SAVE.) proptest-generated programs of the fragment with column-independent output (no TAB/POS/comma zones, no TRON), INPUT allowed. (interrupt_points) the run is single-stepped with execute(1); for EVERY k below the run length (sampled when longer than 120/400) \
 the program is interrupted after k instructions, the break message is checked to be exactly [newline]?BREAK IN n, optionally variables are printed in direct mode, then CONT; the same at every INPUT wait. (quanta) the same run under quanta 1,2,3,5,7,64,4999,5000 and random per-call quanta incl. 0. \
 (inserted_stop) STOP or END inserted at a random statement boundary (also inside IF arms, loop bodies, subroutines), run + CONT after every stop. Oracle (differential): output before the break + output after CONT == output of the uninterrupted run; prompts equal up to one repeated prompt; final variables equal; all quanta give identical transcripts. \
 Points outside the statement are skipped using the verif-hooks probe: RUN itself still executing, program already ended, an error already pending. Non-trivial: the interruption lands with operands or frames on the stack or in the INPUT wait / the inserted STOP sits in an IF arm or is hit repeatedly; distinct by program.",
